@@ -47,7 +47,9 @@ def vary(rng, items, lines, p=0.5):
 COMMENTS = ['# save string pointer', '# error code in a0', '#string x', '# include defs.asm', '# x1, x2', '# bytes 1 2 3', '# K = 5', '# loop:',
             '# 50% done', "# don't", '# (see above', '# pack <I 5', '# align 4', '# error', '# string', '# li x1, 1 # twice', '#',
             '## banner ##', '# item #1', '#### section', '# a # b # c', '#-#',
-            "# 'A' would be 65", "# not '\\n'", "# ',' and ' '", "# '#'", "#'x'"]
+            "# 'A' would be 65", "# not '\\n'", "# ',' and ' '", "# '#'", "#'x'",
+            '# see C:\\fw\\', '# +----\\', '# \\', '# WIDTH = 8', '# a == b', '# t0 := 5', '# "quoted"', '# tab\there', '# 100%', '# @todo ; x', '# //',
+            '# /* c */', '# $1', '# `x`', '# {k}', '# [0]', '# a\\nb', '# é ü €']
 
 
 def comment(rng, line, p=0.3):
